@@ -60,8 +60,13 @@ def _(v):
             # stub of an integrator that is not compiled in (WHFast512 without AVX512: raises an error and returns)
             v.ground("%s.is_error_stub_without_force_evaluation" % f, "reb_simulation_update_acceleration" not in s.calls, str(sorted(s.calls))[:300])
             continue
-        gv = gravity_values({f, f2} | set(s.calls) | set(s2.calls), L.function(f)[0].path)
-        tops |= {p.split(".")[0] for p in s2.param_paths(0)} & {"gravity_ignore_terms"}     # EOS sets it before each of its own force calls
+        own_file = L.function(f)[0].path
+        gv = gravity_values({f, f2} | set(s.calls) | set(s2.calls), own_file)
+        # reb_simulation_step evaluates the forces between part1 and part2 with the generic routine unless part1 switched
+        # it off (gravity = NONE, as EOS does); only then is it enough to set the filter later, before the integrator's own
+        # force calls in part2
+        if "REB_GRAVITY_NONE" in gravity_values({f} | set(s.calls), own_file):
+            tops |= {p.split(".")[0] for p in s2.param_paths(0)} & {"gravity_ignore_terms"}
         owns = bool(gv) and gv <= OWN
         # an integrator whose steps only ever run its own force routine (one that does not read the filter) is exempt; every
         # other integrator -- including one that switches to REB_GRAVITY_BASIC for a sub-integration -- must set the filter
